@@ -253,7 +253,13 @@ def run(ctx, rec):
                          ("a port the unit does not have", lambda n=n: Series(unit=build.leaf_call("R", 5), conns=("p", "zz"), nser=n)),
                          ("MosStack of a unit without d / s", lambda n=n: MosStack(unit=build.leaf_call("R", 5), nser=n)),
                          ("series ports of unequal widths", (lambda n=n: Series(unit=real_unit(e3[0][1], e3[0][2]), conns=("p", "r"), nser=n)) if e3 else None),
-                         ("a bundle-valued series port", lambda n=n: Series(unit=real_unit(ub[1], ub[2]), conns=("a", "bp"), nser=n))):
+                         ("a bundle-valued series port", lambda n=n: Series(unit=real_unit(ub[1], ub[2]), conns=("a", "bp"), nser=n)),
+                         # the name a bundle port's member is FLATTENED to is no port of the unit - whether the unit was elaborated before or not
+                         ("a flattened member name as series port", lambda n=n: Series(unit=real_unit(ub[1], ub[2]), conns=("a", "bp_x"), nser=n)),
+                         ("a flattened member name as series port (unit elaborated before)",
+                          lambda n=n: Series(unit=real_unit(ub[1], ub[2], pre_elaborated=True), conns=("a", "bp_x"), nser=n)),
+                         ("a flattened member name as series port (unit below a failed parent)",
+                          lambda n=n: Series(unit=real_unit(ub[1], ub[2], pre_elaborated="below-failed-parent"), conns=("bp_x", "b"), nser=n))):
             if mk is None:
                 continue
             rec.count("probe.ill-formed-pairs")
